@@ -100,7 +100,7 @@ type Contracts struct {
 }
 
 var (
-	reHeadFunc  = regexp.MustCompile(`^(func|iface|funcfield|funcparam|lib)\s+(\S+?)(\(([^)]*)\))?\s*(\(([^)]*)\))?\s*$`)
+	reHeadFunc  = regexp.MustCompile(`^(func|iface|funcfield|funcparam|funcvalue|lib)\s+(\S+?)(\(([^)]*)\))?\s*(\(([^)]*)\))?\s*$`)
 	reClause    = regexp.MustCompile(`^(requires|ensures|assert|assume)\s+(\w+)\s*(\[([^\]]*)\])?\s*:\s*(.*)$`)
 	reLoopInv   = regexp.MustCompile(`^loop\s+(\d+)\s+invariant\s+(\w+)\s*(\[([^\]]*)\])?\s*:\s*(.*)$`)
 	reLoopMod   = regexp.MustCompile(`^loop\s+(\d+)\s+modifies\s+(.*)$`)
@@ -187,7 +187,7 @@ func (cs *Contracts) parseContractLines(pkg, file string, lines []string, truste
 				Loops: map[int]*LoopSpec{}, Trusted: trusted || m[1] != "func", Opts: map[string]string{}, Where: where,
 				LocalGhost: map[string]string{}}
 			key := name
-			if m[1] != "func" && m[1] != "lib" {
+			if m[1] != "func" && m[1] != "lib" && m[1] != "funcvalue" {
 				key = m[1] + ":" + name
 			}
 			if _, dup := cs.Funcs[key]; dup {
